@@ -14,7 +14,7 @@ func init() {
 
 func checkC13(c *Ctx) {
 	r, t := c.R, c.T
-	r.Explanation = "Decides on the SSA of Script.RefRun, funcs.Use, funcs.Exit, GetContext/InitCtx and RunStmts: (1) FRESH-TASK: RefRun runs the callee on a task obtained from GetContext and initialised by InitCtx(newtask, caller.input, callee script, caller.signal); the only things read from the caller's task are its input and its signal, nothing is written to it, and the callee's statements are run on the new task; GetContext gives the task a brand-new root scope with no link to another scope chain; (2) USE: Use runs exactly the script bound in PrivateData, appends its own call site (task name, NamePos) to a callee error and returns nil otherwise; the error returned by a builtin aborts the caller (RunCallExpr returns it, RunStmts latches procExit and returns it); (3) EXIT-OWN: Exit sets the exit latch of the task it was called with and of no other; the latch is set true only by SetExit, by RunStmts' error arm and by the signal poll, and cleared only by the init functions / PutContext; RefRun never reads the callee's latch, so an exit() inside a use()d script ends only that script; (4) STOP-AFTER-EXIT: RunStmts tests StmtRetrun (which includes the latch) after every statement and returns. Not decided: effect order across whole call trees as behaviour."
+	r.Explanation = "Decides on the SSA of Script.RefRun, funcs.Use, funcs.Exit, GetContext/InitCtx and RunStmts: (1) FRESH-TASK: RefRun runs the callee on a task obtained from GetContext and initialised by InitCtx(newtask, caller.input, callee script, caller.signal); the only things read from the caller's task are its input and its signal, nothing is written to it, and the callee's statements are run on the new task; GetContext gives the task a brand-new root scope with no link to another scope chain; (2) USE: Use runs exactly the script bound in PrivateData, appends its own call site (task name, NamePos) to a callee error and returns nil otherwise; the error returned by a builtin aborts the caller (RunCallExpr returns it, RunStmts latches procExit and returns it); (2b) USE-BOUND: every use() call site accepted by the checker is recorded for the linker (UseChecking → SetCallRef appends on every path → Script.Check publishes the list), because Use silently does nothing for an unbound call site; (3) EXIT-OWN: Exit sets the exit latch of the task it was called with and of no other; the latch is set true only by SetExit, by RunStmts' error arm and by the signal poll, and cleared only by the init functions / PutContext; RefRun never reads the callee's latch, so an exit() inside a use()d script ends only that script; (4) STOP-AFTER-EXIT: RunStmts tests StmtRetrun (which includes the latch) after every statement and returns. Not decided: effect order across whole call trees as behaviour."
 	refRun := t.Method(pRT, "Script", "RefRun")
 	getCtx := t.Func(pRT, "GetContext")
 	initCtx := t.Func(pRT, "InitCtx")
@@ -175,6 +175,8 @@ func checkC13(c *Ctx) {
 		}
 	})
 	r.Ob("USE", "RunStmts stops at the first failing statement and returns its error", t.Pos(runStmts.Pos()), okErrArm, "procExit = true; return err")
+
+	callRefComplete(c, "USE-BOUND")
 
 	// ---- (3) exit
 	okExit := false
